@@ -13,6 +13,7 @@ mod c09;
 mod c10;
 mod c11;
 mod c12;
+mod c13;
 mod c14;
 mod c15;
 mod core;
@@ -73,6 +74,7 @@ fn main() {
             let ls = lifts(&args);
             let thorough = args.iter().any(|a| a == "--thorough");
             let cli = opt(&args, "--cli");
+            let setup: J = opt(&args, "--setup").map(|p| serde_json::from_str(&std::fs::read_to_string(p).unwrap()).unwrap()).unwrap_or(J::Null);
             let out: Vec<J> = cases
                 .iter()
                 .enumerate()
@@ -84,6 +86,7 @@ fn main() {
                     "c12" => c12::replay(c, &ls),
                     "c10" => c10::replay(c),
                     "c11" => c11::replay(c),
+                    "c13" => c13::replay(c, &setup),
                     "c14" => c14::replay(c),
                     "c15" => c15::replay(c, &ls),
                     _ => {
